@@ -12,6 +12,7 @@
 //             length 2, length 3 over a 12-character subset x 17 passwords (empty, with ':' in every position,
 //             NUL, bytes >= 0x80, long); plus user names with ':' (refused by the setter); thorough: also all
 //             94^3 printable user names of length 3 x 4 passwords of length 0..3
+//   rekey     one Authorization object: set or parse credentials A, read, set credentials B, read (8 x 8 pairs)
 //   invalid   every string of length <= 6 (thorough: 7) over {A b 9 + / = ! 0x80}: through the decoder and
 //             through an Authorization header carrying it as Basic credentials
 //   damaged   for every length 0..300: the valid encoding with one character replaced at the first, a middle
@@ -524,6 +525,46 @@ static void run_cred3(uint64_t i, vr::Ctx& ctx)
     eval_cred(ctx, user, pw[i % 4]);
 }
 
+// one header object used for two credentials in a row: what is read back is the pair set last
+static void run_rekey(uint64_t i, vr::Ctx& ctx)
+{
+    static const std::pair<const char*, const char*> kPairs[] = { { "alice", "wonderland" }, { "bob", "s3cret:with:colons" }, { "a", "" }, { "Aladdin", "open sesame" },
+                                                                  { "x", "y" }, { "user-with-a-long-name", "p" }, { "u", "\xff\xfe" }, { "", "only-password" } };
+    const int n = sizeof kPairs / sizeof kPairs[0];
+    auto& A = kPairs[i / n % n];
+    auto& B = kPairs[i % n];
+    int how = int(i / (n * n)); // 0: set A, 1: parse A
+    Http::Header::Authorization h;
+    std::string what = std::string(how ? "parse" : "set") + "(" + A.first + "," + short_show(A.second) + "); get; set(" + B.first + "," + short_show(B.second) + "); get";
+    ctx.note("rekey " + what);
+    std::string r;
+    try
+    {
+        if (how == 0)
+            h.setBasicUserPassword(A.first, A.second);
+        else
+            h.parse("Basic " + ref::encode(std::string(A.first) + ":" + A.second));
+        std::string u1 = h.getBasicUser(), p1 = h.getBasicPassword();
+        if (u1 != A.first || p1 != A.second)
+            violate(ctx, "c20:credentials:first-read-differs", "{" + dj("sequence", what) + "," + dj("observed_user", u1) + "}");
+        h.setBasicUserPassword(B.first, B.second);
+        std::string u2 = h.getBasicUser(), p2 = h.getBasicPassword();
+        if (u2 != B.first || p2 != B.second)
+            violate(ctx, "c20:credentials:read-after-a-second-set-returns-the-earlier-pair", "{" + dj("sequence", what) + "," + dj("observed_user", u2) + "," + dj("observed_password", short_show(p2)) + "}");
+        r = "ok";
+    }
+    catch (const std::exception& e)
+    {
+        violate(ctx, "c20:credentials:rekey-threw", "{" + dj("sequence", what) + "," + dj("what", e.what()) + "}");
+        r = "threw";
+    }
+    ctx.count("evaluations", 1);
+    ctx.count("transitions", 6);
+    ctx.nontrivial(vr::hash_str(what, 61));
+    ctx.outcome("rekey " + r);
+    ctx.poll_reports();
+}
+
 static void run_invalid(uint64_t i, vr::Ctx& ctx) { eval_text(ctx, nth_string(i, kInvalid, 8, 0, gInvalidLen), "invalid"); }
 
 // damaged encodings: one runner case = one length
@@ -555,6 +596,9 @@ static void run_damaged(uint64_t n, vr::Ctx& ctx)
         eval_text(ctx, good.substr(0, good.size() - cut), "damaged");
     for (char c : { 'A', '=', '!', '\0' })
         eval_text(ctx, good + c, "damaged");
+    // nothing but padding, of every length (long ones live on the heap: stepping back over the padding must stop at
+    // the beginning of the text)
+    eval_text(ctx, std::string(n, '='), "damaged");
     // padding where data is expected: a whole quantum of '=' in front / in the middle
     eval_text(ctx, "====" + good, "damaged");
     eval_text(ctx, good.substr(0, good.size() / 8 * 4) + "A===" + good.substr(good.size() / 8 * 4), "damaged");
@@ -577,6 +621,7 @@ int main(int argc, char** argv)
     add_section("cred", gUsers.size() * gPasswords.size(), run_cred, 17 * 32);
     if (gThorough)
         add_section("cred3", uint64_t(gPrintable.size()) * gPrintable.size() * gPrintable.size() * 4, run_cred3, 512);
+    add_section("rekey", 2 * 8 * 8, run_rekey, 64);
     add_section("invalid", count_strings(8, 0, gInvalidLen), run_invalid, 512);
     add_section("damaged", uint64_t(gMaxLen + 1), run_damaged, 1);
     uint64_t total = gSecs.back().firstCase + gSecs.back().cases;
